@@ -95,14 +95,14 @@ func sqlC09(args []string) error {
 	for sc := envStart(); sc < nscen; sc++ {
 		rng := scenarioRng(sc)
 		pool := pools[rng.Intn(len(pools))]
-		if ctx == "C09" && pool < 1024 && sc%2 == 1 {
-			pool = 1024 // the scenarios with a second, large table and a join: more pages pinned at a time
+		if ctx == "C09" && pool < 1024 && (sc%2 == 1 || sc%6 == 4) {
+			pool = 1024 // the scenarios with a second, large table and a join, or with a hash index: more pages pinned at a time
 		}
 		s, err := newFileRun(tw, ctx, dir, pool)
 		if err != nil {
 			return err
 		}
-		if ctx == "C07" && sc%4 == 3 {
+		if (ctx == "C07" && sc%4 == 3) || (ctx == "C09" && sc%6 == 4) { // (C09: clean restarts only)
 			s.hashRestarts(rng, sc)
 			s.closeFiles()
 			continue
@@ -360,7 +360,7 @@ func (s *sqlRun) hashRestarts(rng *rand.Rand, sc int) {
 	add(40 + rng.Intn(40))
 	look()
 	for cy := 0; cy < 3 && !s.dead; cy++ {
-		s.restart(rng.Intn(2) == 0)
+		s.restart(rng.Intn(2) == 0 || s.ctx == "C09")
 		look()
 		// committed deletes (by the skip-list column) and inserts
 		s.delete(t, atom(1, "=", rng.Intn(7)))
